@@ -120,3 +120,125 @@ func reexec06(c *core.Ctx) {
 		c.Shape("reexec", handJoin, assocJoin, len(seeds), shapeOfSQL(strings.SplitN(t1, " :: ", 2)[0]))
 	}
 }
+
+// Bad06 is a destination gorm cannot parse (a nested plain struct is taken for a relation without foreign key).
+type Bad06 struct {
+	ID   uint
+	Note struct{ Text string }
+}
+
+var failing06 = []string{"ScanRows(bad)", "Find(bad)", "First(bad)", "Create(bad)", "Save(bad)", "Delete(bad)", "Model(bad).Count", "Model(bad).Update", "Raw.Scan(bad)",
+	"Table(missing).Find", "Where(missing column).Find", "Exec(broken SQL)", "Raw(broken SQL).Rows", "Transaction(fails)", "Association(missing)", "AutoMigrate(bad)", "Select(123).Find", "Create(nil map)", "Row(broken)", "Pluck(missing)"}
+
+// failed06: an operation that fails (or is refused) when started directly from a reusable handle leaves its error with
+// its own chain: the handle is as usable as before, and the statement a later chain from it sends is unchanged.
+func failed06(c *core.Ctx) {
+	h := real06()
+	r := c.R
+	kind := core.Pick(r, []string{"session", "ctx", "debug", "begin", "skiphooks", "session+ctx", "ctxsame", "session.session"})
+	var hd *gorm.DB
+	if kind == "session.session" {
+		hd = h.DB.Session(&gorm.Session{}).Session(&gorm.Session{})
+	} else {
+		hd, _, _ = applyPel(pel{kind: kind}, h.DB, h.DB)
+	}
+	if kind == "begin" {
+		defer hd.Rollback()
+	}
+	find := func() string {
+		mark := h.Rec.Mark()
+		var out []Tag
+		res := hd.Where("c2 >= ?", 2).Find(&out)
+		evs := stmtEvents(h.Rec.Since(mark))
+		s := "(no statement)"
+		if len(evs) > 0 {
+			s = fmt.Sprintf("%s :: %d args -> %d rows", evs[0].Query, len(evs[0].Args), len(out))
+		}
+		if res.Error != nil {
+			s += " ERR=" + res.Error.Error()
+		}
+		return s
+	}
+	before := find()
+	var done []string
+	for n := r.Range(1, 3); n > 0; n-- {
+		op := core.Pick(r, failing06)
+		done = append(done, op)
+		var err error
+		switch op {
+		case "ScanRows(bad)":
+			rows, e := hd.Model(&Tag{}).Rows()
+			if e != nil {
+				panic(e)
+			}
+			for rows.Next() {
+				var b Bad06
+				err = hd.ScanRows(rows, &b)
+			}
+			rows.Close()
+			err = fmt.Errorf("(whatever ScanRows said: %v)", err)
+		case "Find(bad)":
+			err = hd.Find(&[]Bad06{}).Error
+		case "First(bad)":
+			err = hd.First(&Bad06{}).Error
+		case "Create(bad)":
+			err = hd.Create(&Bad06{}).Error
+		case "Save(bad)":
+			err = hd.Save(&Bad06{ID: 1}).Error
+		case "Delete(bad)":
+			err = hd.Delete(&Bad06{ID: 1}).Error
+		case "Model(bad).Count":
+			var n int64
+			err = hd.Model(&Bad06{}).Count(&n).Error
+		case "Model(bad).Update":
+			err = hd.Model(&Bad06{ID: 1}).Update("id", 2).Error
+		case "Raw.Scan(bad)":
+			err = hd.Raw("SELECT 1 AS id").Scan(&Bad06{}).Error
+			if err == nil {
+				err = fmt.Errorf("(accepted)")
+			}
+		case "Table(missing).Find":
+			err = hd.Table("no_such_table").Find(&[]Tag{}).Error
+		case "Where(missing column).Find":
+			err = hd.Where("no_such_column = ?", 1).Find(&[]Tag{}).Error
+		case "Exec(broken SQL)":
+			err = hd.Exec("UPDATE no_such_table SET x = ?", 1).Error
+		case "Raw(broken SQL).Rows":
+			_, err = hd.Raw("SELECT FROM WHERE").Rows()
+		case "Transaction(fails)":
+			err = hd.Transaction(func(tx *gorm.DB) error {
+				tx.Create(&Bad06{})
+				return fmt.Errorf("given up")
+			})
+		case "Association(missing)":
+			err = hd.Model(&Tag{ID: 3}).Association("NoSuchRelation").Error
+		case "AutoMigrate(bad)":
+			err = hd.AutoMigrate(&Bad06{})
+		case "Select(123).Find":
+			err = hd.Select(123).Find(&[]Tag{}).Error
+		case "Create(nil map)":
+			err = hd.Table("no_such_table").Create(map[string]interface{}{"a": 1}).Error
+		case "Row(broken)":
+			err = hd.Raw("SELECT FROM WHERE").Row().Err()
+		case "Pluck(missing)":
+			var xs []string
+			err = hd.Model(&Tag{}).Pluck("no_such_column", &xs).Error
+		}
+		if err == nil {
+			panic("the operation " + op + " was expected to fail")
+		}
+	}
+	c.Inc("handles_after_failed_operations")
+	var problems []string
+	if hd.Error != nil {
+		problems = append(problems, "the handle now carries the error: "+hd.Error.Error())
+	}
+	if after := find(); after != before {
+		problems = append(problems, fmt.Sprintf("Where(c2 >= 2).Find from the handle:\n   before: %s\n   after : %s", before, after))
+	}
+	if len(problems) > 0 {
+		c.Violation("handle-altered-by-failed-operation", map[string]interface{}{"handle": "db." + kind, "operations_that_failed": done, "problems": problems})
+	} else {
+		c.Shape("failed-op", kind, strings.Join(done, "+"))
+	}
+}
